@@ -709,7 +709,9 @@ def evaluate_payload_template(input, context, template):
                     "The value of {}.$ must be a Path or an Intrinsic Function".format(k)
                 )
             if v == "$":  # It's a path representing the root node
-                v = clone(input)  # clone to avoid potential circular reference
+                # copy to avoid potential circular reference. Not clone(), which
+                # would treat the *input* as a template and evaluate its ".$" fields
+                v = copy.deepcopy(input)
             elif v.startswith("$"):  # It's a path
                 v = apply_path(input, context, v)
             else:  # It's an Intrinsic Function
